@@ -30,6 +30,7 @@ def commands : List (String × (String → String)) := [
   ("nest", nest),
   ("tables", tables),
   ("coherent", coherent),
+  ("trie", trie),
   ("validate", validate),
   ("json", json),
   ("promela", promela),
